@@ -209,6 +209,25 @@ def run(rng, tier, model_ok):
                 runs += 1
                 if rc3 != 0 or ans3 != ref:
                     failures.append({"input": {"state": st, "kills_at": hist}, "why": "the second start after recovery answers differently"})
+    # a start that keeps its index in memory (Db::in_memory, given the same data directory) between the kill and the next start: it
+    # answers from the shipped data and leaves the directory to be recovered as if it had not run
+    mem_runs = 0
+    for st in states:
+        for cp in ((3, 6, 8, 10) if tier == "quick" else cps):
+            prepare(st)
+            sb.start(crash=cp)
+            rcm, ansm = sb.start(memory=True)
+            rc, ans = sb.start()
+            rc2, ans2 = (sb.start() if cp == 8 or tier == "thorough" else (0, ref))
+            runs += 4
+            mem_runs += 1
+            hist = {"state": st, "kills_at": [cp], "then": "an in-memory start, then ordinary starts"}
+            if rcm != 0 or ansm != ref:
+                failures.append({"input": hist, "why": "the in-memory start after the kill does not answer from the shipped data (rc=%s)" % rcm, "got": ansm[:2]})
+            elif rc != 0 or ans != ref or rc2 != 0 or ans2 != ref:
+                failures.append({"input": hist, "why": "after a kill and an in-memory start, an ordinary start does not answer like a fresh in-memory database", "got": (ans if ans != ref else ans2)[:2]})
+            elif not is_current(sb.meta()):
+                failures.append({"input": hist, "why": "a completed start did not leave current metadata"})
     mismatches = []
     if model_ok:
         bad = vlib.coq_eval_cases(cases, "C15", shard_size=50)
@@ -223,7 +242,7 @@ def run(rng, tier, model_ok):
                 "1..10 (and pairs of crash points), each followed by a complete start compared with an in-memory database; non-trivial = "
                 "distinct (state, kill history) cases",
         "samples": samples, "mismatches": mismatches, "failures": failures,
-        "extra": {"states": len(states), "crash_points": len(cps), "histories": len(histories), "process_starts": runs, "exhaustive": True,
+        "extra": {"states": len(states), "crash_points": len(cps), "histories": len(histories), "process_starts": runs, "histories_with_an_in_memory_start": mem_runs, "exhaustive": True,
                   "exhaustive_domain": "prior state x single crash point"},
     }
 
